@@ -299,7 +299,8 @@ impl RustPrimitive {
   pub fn format_number(&self, num: &Number) -> String {
     if self.is_float() {
       let s = num.to_string();
-      if s.contains('.') { s } else { format!("{s}.0") }
+      // `1e-7` / `1e+16` already are float literals: only a bare integer text needs the `.0`
+      if s.contains(['.', 'e', 'E']) { s } else { format!("{s}.0") }
     } else if let Some(value) = num.as_i64() {
       render_integer(self, value)
     } else if let Some(value) = num.as_u64() {
